@@ -1751,30 +1751,29 @@ class DynDiGraph(nx.DiGraph):
         H.name = self.name
         H.add_nodes_from(self)
 
-        if reciprocal is True:
-            for u in self._node:
-                for v in self._node:
-                    if u >= v:
-                        try:
-                            outc = self._succ[u][v]['t']
-                            intc = self._pred[u][v]['t']
-                            for o in outc:
-                                r = set(range(o[0], o[1] + 1))
-                                for i in intc:
-                                    r2 = set(range(i[0], i[1] + 1))
-                                    inter = list(r & r2)
-                                    if len(inter) == 1:
-                                        H.add_interaction(u, v, t=inter[0])
-                                    elif len(inter) > 1:
-                                        H.add_interaction(u, v, t=inter[0], e=inter[-1])
+        # instants at which each unordered pair is present: union of the two directions,
+        # or their intersection when only reciprocal interactions are kept
+        merged = {}
+        for u, v, d in self.out_interactions_iter():
+            if (v, u) in merged:
+                continue
+            fw = set(x for a, b in d['t'] for x in range(a, b + 1))
+            bw = set()
+            if u in self._succ[v]:
+                bw = set(x for a, b in self._succ[v][u]['t'] for x in range(a, b + 1))
+            merged[(u, v)] = (fw & bw) if reciprocal is True else (fw | bw)
 
-                        except Exception:
-                            pass
-
-        else:
-            for it in self.interactions_iter():
-                for t in it[2]['t']:
-                    H.add_interaction(it[0], it[1], t=t[0], e=t[1])
+        for (u, v), instants in merged.items():
+            run = None
+            for x in sorted(instants):
+                if run is not None and x == run[1] + 1:
+                    run[1] = x
+                else:
+                    if run is not None:
+                        H.add_interaction(u, v, t=run[0], e=run[1] + 1)
+                    run = [x, x]
+            if run is not None:
+                H.add_interaction(u, v, t=run[0], e=run[1] + 1)
 
         H.graph = deepcopy(self.graph)
         H._node = deepcopy(self._node)
